@@ -117,3 +117,108 @@ Definition same_setup (p : periph) (s : slave) (p' : periph) (s' : slave) : Prop
   sl_in_len s' = sl_in_len s /\ sl_out_len s' = sl_out_len s /\ sl_silent s' = sl_silent s /\
   sl_ready_delay s' = sl_ready_delay s /\ sl_stat_diag s' = sl_stat_diag s /\
   sl_force1 s' = sl_force1 s /\ sl_force2 s' = sl_force2 s /\ sl_ext s' = sl_ext s.
+
+(* ================================================================== the vocabulary of the C07 theorems *)
+
+(* cycles within which the pair is back in data exchange: max_retry + 11 (DpOracle.c07_bound allows max_retry + 16) *)
+Definition c07_cycles (max_retry : Z) : nat := Z.to_nat max_retry + c07_units.
+
+(* master in DataExchange with the slave in Data_Exch *)
+Definition in_dx (st : jstate) : Prop :=
+  pe_state (fst st) = PsDataExchange /\ sl_st (snd st) = SlDataExch.
+
+(* Known finding F15 as a set of joint states.  Core: the master polls diagnostics in ValidateConfig, the slave
+   is still in Wait_Cfg (it never saw the Chk_Cfg whose forged acknowledgement the master accepted), reports
+   neither fault nor Prm_Req, the next request is not taken for a retransmission and the retries are not used
+   up.  Class: the states whose fault-free continuation enters the core within the recovery bound. *)
+Definition f15_core (pa : params) (st : jstate) : Prop :=
+  let (p, s) := st in
+  pe_state p = PsValidateConfig /\ sl_st s = SlWaitCfg /\ sl_prm_fault s = false /\ sl_cfg_fault s = false /\
+  fresh (pe_fcb p) (sl_fcb s) = true /\ pe_retry p <= p_max_retry pa.
+
+Definition f15_class (pa : params) (op : opstate) (st : jstate) : Prop :=
+  exists n st' evs, (n <= c07_cycles (p_max_retry pa))%nat /\ joint_run pa op n st = Ok (st', evs) /\ f15_core pa st'.
+
+(* an explicit superset of the class: slave in Wait_Cfg while the master is past Chk_Cfg, or is about to
+   repeat a Chk_Cfg that the slave will take for a retransmission *)
+Definition f15_suspect (st : jstate) : Prop :=
+  let (p, s) := st in
+  sl_st s = SlWaitCfg /\
+  (pe_state p = PsValidateConfig \/ pe_state p = PsPreDataExchange \/ pe_state p = PsDataExchange \/
+   (pe_state p = PsWaitForConfig /\ fresh (pe_fcb p) (sl_fcb s) = false)).
+
+(* ------------------------------------------------------------------ histories of one peripheral (C07_online_again) *)
+
+(* everything that can happen to a peripheral: its turn in the cycle, a reply (any telegram), the user asking
+   for diagnostics or writing outputs; a timeout is no call at all *)
+Inductive pop : Set :=
+| PopTx
+| PopRx (t : telegram)
+| PopReqDiag
+| PopWriteQ (q : bytes).
+
+Definition tx_events (r : ptx) : list pevent :=
+  match r with PtxSkip (Some e) => [e] | _ => [] end.
+
+Definition pop_step (pa : params) (op : opstate) (p : periph) (o : pop) : res (periph * list pevent) :=
+  match o with
+  | PopTx => let* (p1, r) := p_transmit pa op p in Ok (p1, tx_events r)
+  | PopRx t => let* (p1, ev) := p_receive_reply p t in Ok (p1, match ev with Some e => [e] | None => [] end)
+  | PopReqDiag => Ok (p_request_diagnostics p, [])
+  | PopWriteQ q => Ok (set_pi_q p q, [])
+  end.
+
+Fixpoint run_pops (pa : params) (op : opstate) (p : periph) (ops : list pop) : res (periph * list pevent) :=
+  match ops with
+  | [] => Ok (p, [])
+  | o :: r =>
+      let* (p1, e1) := pop_step pa op p o in
+      let* (p2, e2) := run_pops pa op p1 r in
+      Ok (p2, e1 ++ e2)
+  end.
+
+(* the life-cycle automaton of DpOracle (Off -Online-> On -Configured-> Cfg, back to Off by Offline / errors)
+   run over an event list *)
+Fixpoint life_run (l : lstate) (evs : list pevent) : option lstate :=
+  match evs with
+  | [] => Some l
+  | e :: r => match l_step l e with Some l' => life_run l' r | None => None end
+  end.
+
+(* a life-cycle state fits a peripheral: Off exactly when it is Offline; (Pre)DataExchange only when Cfg *)
+Definition life_fits (l : lstate) (p : periph) : Prop :=
+  (l = LOff <-> pe_state p = PsOffline) /\
+  (pe_state p = PsPreDataExchange \/ pe_state p = PsDataExchange -> l = LCfg).
+
+(* an Offline peripheral has not used up its retries (it has at most one probe outstanding) *)
+Definition off_inv (pa : params) (p : periph) : Prop := pe_state p = PsOffline -> pe_retry p <= p_max_retry pa.
+
+(* the request a live peripheral has pending (after the in-flight latch) *)
+Definition live_req (pa : params) (op : opstate) (p : periph) : ptx :=
+  match pe_state p with
+  | PsOffline | PsValidateConfig => diag_request pa p
+  | PsWaitForParam => match o_user_prm (pe_opts p) with Some u => prm_request pa p u | None => PtxSkip None end
+  | PsWaitForConfig => match o_config (pe_opts p) with Some c => cfg_request pa p c | None => PtxSkip None end
+  | PsPreDataExchange | PsDataExchange =>
+      if pe_diag_in_flight p then diag_request pa p else dx_request pa op p
+  end.
+
+(* the latch of Peripheral::transmit_telegram (F10 fix) *)
+Definition latch (p : periph) : periph :=
+  match pe_state p with
+  | PsPreDataExchange | PsDataExchange =>
+      if pe_retry p =? 0 then set_diag_in_flight p (pe_diag_needed p) else p
+  | _ => p
+  end.
+
+(* ------------------------------------------------------------------ a silent peripheral (C07_silent_goes_offline) *)
+
+(* n consecutive turns without any reply: the requests sent *)
+Fixpoint tx_silent (pa : params) (op : opstate) (n : nat) (p : periph) : res (periph * list ptx) :=
+  match n with
+  | O => Ok (p, [])
+  | S n' =>
+      let* (p1, r) := p_transmit pa op p in
+      let* (p2, l) := tx_silent pa op n' p1 in
+      Ok (p2, r :: l)
+  end.
